@@ -296,6 +296,8 @@ def nextPick : M Pick := fun c =>
 
 def wrapAdd8 (n : Nat) : Nat := (n + 1) % 256
 def satAdd16 (n : Nat) : Nat := if n ≥ 65535 then 65535 else n + 1
+def satAdd8 (n : Nat) : Nat := if n ≥ 255 then 255 else n + 1
+def wrapAdd16 (n : Nat) : Nat := (n + 1) % 65536
 def u16be (n : Nat) : Bytes := [n / 256 % 256, n % 256]
 
 end Foca
